@@ -133,9 +133,11 @@ type MapContent struct {
 	Entries []MapEntry
 }
 
+// ChanContent: FIFO with a symbolic fill. Slots[0] is the oldest element.
 type ChanContent struct {
 	Cap    int
-	Buf    []Value // concrete-length FIFO
+	Count  smt.Term // BV32
+	Slots  []Value  // len == Cap (element values; zero when unused)
 	Closed smt.Term
 }
 
